@@ -885,11 +885,30 @@ class NF:
         env2 = Env(cls.module, cls, vars, types, env.depth + 1, env.vdepth)
         return self.body(m, env2)
 
+    def mk_ite(self, c, a, b):
+        if c[0] == "const":
+            return a if c[1] else b
+        if a == b:
+            return a
+        # polarity: not c ? a : b  ==  c ? b : a
+        if c[0] == "op" and c[1] == "not" and len(c[2]) == 1:
+            return self.mk_ite(c[2][0], b, a)
+        return ("ite", c, a, b)
+
     def body(self, m: ast.FunctionDef, env: Env):
+        from . import norm
         stmts = real_body(m)
-        if any(isinstance(s, ast.For) for s in stmts):
-            stmts = normalise_loops(stmts)
-        for s in stmts:
+        if any(isinstance(n, ast.For) for s_ in stmts for n in ast.walk(s_)):
+            stmts = norm.normalise_loops(stmts)
+            stmts = _generator_to_genexp(stmts)
+        r = self._run(m, list(stmts), env)
+        if r is None or r == _RAISES:
+            raise Opaque(f"{m.name}: no return")
+        return r
+
+    def _run(self, m, stmts, env: Env):
+        """value returned by the statement list (None when it falls through); If statements become ite terms"""
+        for i, s in enumerate(stmts):
             if isinstance(s, (ast.Import, ast.ImportFrom)):
                 self._local_import(s, env)
                 continue
@@ -901,13 +920,52 @@ class NF:
                 v = self.ev(s.value, env)
                 self._assign(s.targets[0], v, env)
                 continue
-            if isinstance(s, ast.AnnAssign) and isinstance(s.target, ast.Name) and s.value is not None:
-                env.vars[s.target.id] = self.ev(s.value, env)
+            if isinstance(s, ast.AnnAssign) and isinstance(s.target, ast.Name):
+                if s.value is not None:
+                    env.vars[s.target.id] = self.ev(s.value, env)
                 continue
             if isinstance(s, ast.Return):
                 return self.ev(s.value, env) if s.value is not None else const(None)
+            if isinstance(s, ast.If):
+                c = self.ev(s.test, env)
+                e1, e2 = env.child(), env.child()
+                r1 = self._run(m, list(s.body), e1)
+                r2 = self._run(m, list(s.orelse), e2)
+                rest = stmts[i + 1:]
+                # a raising branch makes the function partial: its value is that of the other branch
+                if r1 == _RAISES or r2 == _RAISES:
+                    if r1 == _RAISES and r2 == _RAISES:
+                        return _RAISES
+                    live_r, live_e = (r2, e2) if r1 == _RAISES else (r1, e1)
+                    if live_r is not None:
+                        return live_r
+                    env.vars.clear()
+                    env.vars.update(live_e.vars)
+                    continue
+                if r1 is not None and r2 is not None:
+                    return self.mk_ite(c, r1, r2)
+                if r1 is None and r2 is None:
+                    for k in set(e1.vars) | set(e2.vars):
+                        a, b = e1.vars.get(k), e2.vars.get(k)
+                        if a is None or b is None:
+                            if k in env.vars:
+                                del env.vars[k]
+                            continue
+                        env.vars[k] = self.mk_ite(c, a, b) if a != b else a
+                    continue
+                if r1 is not None:
+                    r = self._run(m, list(rest), e2)
+                    if r is None:
+                        raise Opaque(f"{m.name}: a branch returns and the other falls off the end")
+                    return self.mk_ite(c, r1, r)
+                r = self._run(m, list(rest), e1)
+                if r is None:
+                    raise Opaque(f"{m.name}: a branch returns and the other falls off the end")
+                return self.mk_ite(c, r, r2)
+            if isinstance(s, ast.Raise):
+                return _RAISES
             raise Opaque(f"{m.name}: statement {type(s).__name__}")
-        raise Opaque(f"{m.name}: no return")
+        return None
 
     def _assign(self, tg, v, env: Env):
         if isinstance(tg, ast.Name):
@@ -1133,6 +1191,35 @@ class NF:
         self_t = self_t if self_t is not None else sym("self")
         env = Env(module or cls.module, cls, {"self": self_t, **(extra or {})}, {self_t: cls})
         return self.ev(ast.parse(src, mode="eval").body, env), env
+
+
+_RAISES = ("raises",)
+
+
+def _generator_to_genexp(stmts):
+    """`for x in it: yield E` / `if c: yield A else: yield B` as the whole body  ->  `return (E' for x in it)`"""
+    if len(stmts) != 1 or not isinstance(stmts[0], ast.For) or stmts[0].orelse:
+        return stmts
+    lp = stmts[0]
+
+    def val(block):
+        if len(block) != 1:
+            return None
+        b = block[0]
+        if isinstance(b, ast.Expr) and isinstance(b.value, ast.Yield) and b.value.value is not None:
+            return b.value.value
+        if isinstance(b, ast.If) and b.orelse:
+            x, y = val(b.body), val(b.orelse)
+            if x is not None and y is not None:
+                return ast.IfExp(test=b.test, body=x, orelse=y)
+        return None
+    v = val(lp.body)
+    if v is None:
+        return stmts
+    g = ast.GeneratorExp(elt=v, generators=[ast.comprehension(target=lp.target, iter=lp.iter, ifs=[], is_async=0)])
+    r = ast.copy_location(ast.Return(value=g), lp)
+    ast.fix_missing_locations(r)
+    return [r]
 
 
 def _truthiness(t):
